@@ -4,4 +4,4 @@ Require Extraction.
 Require Import ExtrOcamlBasic.
 From Gatery Require Import Bits SchedDefs.
 Extraction "c04_model.ml"
-  simulate sched_run sched_init alloc_summary reset_pins reset_hold_time clock_pins resolve_clocks.
+  simulate sched_run sched_init alloc_summary reset_pins reset_hold_time clock_pins resolve_clocks scope_enable.
